@@ -1,3 +1,3 @@
 From Coq Require Import ExtrOcamlBasic.
-From CppUVerif Require Import lib.CInt lib.Dbl C03_Model.
-Extraction "c03_model.ml" C03_Model.run C03_Model.spec C03_Model.valid Dbl.dbl_of_bits.
+From CppUVerif Require Import lib.CInt lib.Dbl C03_Model C03_SideFx.
+Extraction "c03_model.ml" C03_Model.run C03_Model.spec C03_Model.valid C03_SideFx.x_run C03_SideFx.x_spec C03_SideFx.x_valid Dbl.dbl_of_bits.
